@@ -3,5 +3,5 @@ CONSTANTS DBits = 4
           N = 2
           ByteBits = 2
           CarryVals = "some"
-INVARIANTS MulOK MidOK DivOK RoundDivOK CountOK FmtOK ConvOK
+INVARIANTS MulOK MidOK DivOK RoundDivOK ShiftWrapOK CountOK FmtOK ConvOK
 CHECK_DEADLOCK FALSE
